@@ -10,19 +10,19 @@ CHECKS = {
          'Every program of up to 4 (thorough 6) calls over repeating keys, gaps straddling batch_timeout, configs, per-key batch-function behaviours (value / Exception / StopIteration / omitted / raise / duplicate / unknown key), result orders and durations is executed on the real AsyncBackgroundBatcher (class and function form, one and two instances); each caller outcome is matched by identity against what the harness batch function yielded for its key; a pending caller at loop quiescence is a hang.',
          'CPython 3.12 asyncio; virtual clock; <= 2 deviating keys per script; subclass instances of StopIteration are outside the alphabet (CPython returns their .value).', '3/C04'),
  'C01': ('tx', 'stateless model checking of the implementation: exhaustive thread-interleaving exploration with iterative preemption bounding (line-granular) under a controlled scheduler and virtual clock',
-         'Worlds of 2..3 (thorough 4) threads, each running its own virtual event loop through one of five life-cycles (asyncio.run; main returns early -> stock shutdown cancelling leftovers, in both task orders; per-caller wait_for; hand-driven loop abandoned with the computation pending, with and without finalisation of the abandoned coroutines; loop stopped from another thread), 1..2 (thorough 3) callers per loop, function scripts (return without suspending / suspend / sleep / raise), default dict and MutableMapping caches; EVERY schedule with at most PB preemptions (PB 1-2 quick, 2-3 thorough; choice points at every source line of aiuti code, every lock/executor/queue/loop-select operation and loop stop/close) is executed on the real code under a cooperative scheduler with a virtual clock; a monitor replays the total order of harness events. ' + 'Oracle: never two open invocations of a key on running loops; nothing invoked after the first success; normal returns carry that result.',
+         'Worlds of 2..3 (thorough 4) threads, each running its own virtual event loop through one of five life-cycles (asyncio.run; main returns early -> stock shutdown cancelling leftovers, in both task orders; per-caller wait_for; hand-driven loop abandoned with the computation pending - closed, left open, or with the abandoned coroutines finalised; loop stopped from another thread; for C05/C06 also a loop paused and resumed), 1..2 (thorough 3) callers per loop, function scripts (return without suspending / suspend / sleep / raise), default dict and MutableMapping caches; EVERY schedule with at most PB preemptions (PB 1-2 quick, 2-3 thorough; choice points at every source line of aiuti code, every lock/executor/queue/loop-select operation and loop stop/close) is executed on the real code under a cooperative scheduler with a virtual clock; a monitor replays the total order of harness events. ' + 'Oracle: never two open invocations of a key on running loops; nothing invoked after the first success; normal returns carry that result.',
          'one aiuti source line / one stdlib call is atomic; preemption bound as reported; loops not restarted; lru.LRU cache not used in the threaded worlds.', '3/C01'),
  'C02': ('tx', 'stateless model checking of the implementation: exhaustive thread-interleaving exploration with iterative preemption bounding against the real kernel flock; process-level exploration in C13',
-         '704 (thorough ~2.7k) worlds of 2..3 (thorough 4) threads x 2 FileLock objects on one path x 1..2 rounds over all acquire forms (acquire(), non-blocking, timed, acquire_ctx variants, with; finite default timeouts), section lengths {0, D}, reentrant nesting; every schedule with <= 1-2 preemptions (line-granular in aiuti/filelock.py + every lock/flock/open/close/sleep operation; real kernel flock, scheduler-owned in-process locks, virtual clock); oracle: whoever reported success is the only one until it calls release, sections never overlap, failures never enter, nothing left held. Cross-process exclusion is explored by the C13 harness (real processes, no kill).',
+         '704 (thorough ~2.7k) worlds of 2..3 (thorough 4) threads x 2 FileLock objects on one path x 1..2 rounds over all acquire forms (acquire(), non-blocking, timed, acquire_ctx variants, with; finite default timeouts), section lengths {0, D}, reentrant nesting; every schedule with <= 1-2 preemptions (line-granular in aiuti/filelock.py + every lock/flock/open/close/sleep operation; real kernel flock, scheduler-owned in-process locks, virtual clock); second-thread arrival offsets at the instant the first leaves; oracle: whoever reported success is the only one until it calls release, sections never overlap, failures never enter, a holder inside its section finds the kernel lock busy (independent flock probe), nothing left held (descriptors, in-process locks). Cross-process exclusion is explored by the C13 harness (real processes, no kill).',
          'one source line atomic; in-process locks are shims with threading.Lock/RLock semantics; free-running 16-process contention is sampling and not claimed.', '3/C02'),
  'C03': ('vt', 'bounded-exhaustive enumeration of timed submission programs x failure scripts on the real buffer under a virtual-time event loop (engine A); thread-interleaving exploration for foreign submitters (engine B)',
-         'Every program of up to 4 (thorough 5) submissions/waits over {plain, await_, map(list), map(iterator), amap} with producer delays and failure positions, gaps straddling the timeout, x failure scripts of the wrapped function x durations; oracle on the invocation log: nothing lost, nothing invented, loop-thread arguments in exactly one successful call.',
+         'Every program of up to 4 (thorough 5) submissions/waits over {plain, await_, map(list), map(iterator), amap} with producer delays and failure positions, gaps straddling the timeout, x failure scripts of the wrapped function x durations; plus "creep" variants (an arrival just before the deadline is only k loop iterations before it) and, with engine B, 1..2 foreign submitting threads under all schedules with <= 1-2 preemptions; oracle on the invocation log: nothing lost, nothing invented, loop-thread arguments in exactly one successful call.',
          'virtual clock; <= 2 complex producers per program; engine A runs helper threads to completion at submit.', '3/C03'),
  'C05': ('tx', 'stateless model checking of the implementation: exhaustive thread-interleaving exploration with iterative preemption bounding, deadlock / livelock (step budget) / horizon detection, exact virtual time',
-         'Worlds of 2..3 (thorough 4) threads, each running its own virtual event loop through one of five life-cycles (asyncio.run; main returns early -> stock shutdown cancelling leftovers, in both task orders; per-caller wait_for; hand-driven loop abandoned with the computation pending, with and without finalisation of the abandoned coroutines; loop stopped from another thread), 1..2 (thorough 3) callers per loop, function scripts (return without suspending / suspend / sleep / raise), default dict and MutableMapping caches; EVERY schedule with at most PB preemptions (PB 1-2 quick, 2-3 thorough; choice points at every source line of aiuti code, every lock/executor/queue/loop-select operation and loop stop/close) is executed on the real code under a cooperative scheduler with a virtual clock; a monitor replays the total order of harness events. ' + 'Oracle: every caller on a live loop finishes (deadlock, step budget and horizon are violations); virtual time a caller spends while no invocation of its key is open must be 0, or at most 60 s per hosting loop that died during its lifetime.',
+         'Worlds of 2..3 (thorough 4) threads, each running its own virtual event loop through one of five life-cycles (asyncio.run; main returns early -> stock shutdown cancelling leftovers, in both task orders; per-caller wait_for; hand-driven loop abandoned with the computation pending - closed, left open, or with the abandoned coroutines finalised; loop stopped from another thread; for C05/C06 also a loop paused and resumed), 1..2 (thorough 3) callers per loop, function scripts (return without suspending / suspend / sleep / raise), default dict and MutableMapping caches; EVERY schedule with at most PB preemptions (PB 1-2 quick, 2-3 thorough; choice points at every source line of aiuti code, every lock/executor/queue/loop-select operation and loop stop/close) is executed on the real code under a cooperative scheduler with a virtual clock; a monitor replays the total order of harness events. ' + 'Oracle: every caller on a live loop finishes (deadlock, step budget and horizon are violations); virtual time a caller spends while no invocation of its key is open must be 0, or at most 60 s per hosting loop that died during its lifetime.',
          'as C01; fairness = every enabled thread is eventually run by the default policy and spin loops are scheduler-visible.', '3/C05'),
  'C06': ('tx', 'stateless model checking of the implementation: exhaustive thread-interleaving exploration with iterative preemption bounding; per-caller outcome classification by identity',
-         'Worlds of 2..3 (thorough 4) threads, each running its own virtual event loop through one of five life-cycles (asyncio.run; main returns early -> stock shutdown cancelling leftovers, in both task orders; per-caller wait_for; hand-driven loop abandoned with the computation pending, with and without finalisation of the abandoned coroutines; loop stopped from another thread), 1..2 (thorough 3) callers per loop, function scripts (return without suspending / suspend / sleep / raise), default dict and MutableMapping caches; EVERY schedule with at most PB preemptions (PB 1-2 quick, 2-3 thorough; choice points at every source line of aiuti code, every lock/executor/queue/loop-select operation and loop stop/close) is executed on the real code under a cooperative scheduler with a virtual clock; a monitor replays the total order of harness events. ' + 'Oracle: each caller ends with the value, with an exception instance raised by an invocation its own task performed, or with a cancellation of its own task (own wait_for / own loop shutting down); anything else (bookkeeping KeyError, foreign CancelledError, RuntimeError of a closed loop) is a violation.',
+         'Worlds of 2..3 (thorough 4) threads, each running its own virtual event loop through one of five life-cycles (asyncio.run; main returns early -> stock shutdown cancelling leftovers, in both task orders; per-caller wait_for; hand-driven loop abandoned with the computation pending - closed, left open, or with the abandoned coroutines finalised; loop stopped from another thread; for C05/C06 also a loop paused and resumed), 1..2 (thorough 3) callers per loop, function scripts (return without suspending / suspend / sleep / raise), default dict and MutableMapping caches; EVERY schedule with at most PB preemptions (PB 1-2 quick, 2-3 thorough; choice points at every source line of aiuti code, every lock/executor/queue/loop-select operation and loop stop/close) is executed on the real code under a cooperative scheduler with a virtual clock; a monitor replays the total order of harness events. ' + 'Oracle: each caller ends with the value, with an exception instance raised by an invocation its own task performed, or with a cancellation of its own task (own wait_for / own loop shutting down); anything else (bookkeeping KeyError, foreign CancelledError, RuntimeError of a closed loop) is a violation.',
          'as C01.', '3/C06'),
  'C07': ('vt', 'bounded-exhaustive enumeration of timed programs with wait() calls and shutdown instants on the real buffer under a virtual-time event loop',
          'The C03 program space with the barrier oracle evaluated at the instant each wait() returns (several concurrent waiters, cancel=True/False); shutdown sweep: main() returns at every grid instant so that the stock asyncio _cancel_all_tasks meets the buffer idle / collecting / timer armed / function running and must terminate; direct cancellation of the background task.',
@@ -34,7 +34,7 @@ CHECKS = {
          'Every sequence of 2..3 (thorough 4) calls over repeating keys with 1..2 cancel events at every position, gaps x per-item durations covering queued / running-before-result / after-result, x configs, retention 0 and >0, result order, value/exception scripts, followed by fresh calls; every never-cancelled caller is matched by identity against the batch function yield for its key; pending callers at quiescence are hangs.',
          'virtual clock; the cancelled caller itself is unconstrained.', '3/C09'),
  'C11': ('vt', 'bounded-exhaustive enumeration of timed same-key call sequences on the real batcher under a virtual-time event loop',
-         'Every timed sequence of up to 4 (thorough 5) calls over repeating keys with gaps on a grid around batch_timeout, retention_timeout and the answer instant, retention in {0, 0.5, 4}; calls are classified sharer/origin from exact virtual arrival vs answer times and checked by object identity / batch id; no batch may carry a key twice; batch items must equal distinct computations.',
+         'Every timed sequence of up to 4 (thorough 5) calls over repeating keys with gaps on a grid around batch_timeout, retention_timeout and the answer instant, retention in {0, 0.5, 4}; plus chained callers (a task re-requesting its key right after being answered); calls are classified sharer/origin from exact virtual arrival vs answer times (and causality for chained calls) and checked by object identity / batch id; no batch may carry a key twice; batch items must equal distinct computations.',
          'virtual clock; exact ties with the eviction instant are not judged; nobody cancelled.', '3/C11'),
  'C10': ('vt', 'bounded-exhaustive enumeration of arrival-time sequences (with max_batch_size mutation events) on the real batcher under a virtual-time event loop',
          'All arrival sequences of up to 5 (thorough 7) calls on a gap grid straddling batch_timeout, with one max_batch_size mutation at any position, x size/concurrency/duration configs; the batch log of the harness batch function is checked for size limit, concurrency limit, FIFO, sharing-until-full and dispatch deadline (exact in virtual time, ties not judged).',
@@ -46,7 +46,7 @@ CHECKS = {
          'Victim scenarios {blocking, timed vs busy lock, reentrant nested, with, acquire_ctx, lock object pre-used by the parent before fork} x SIGKILL at EVERY report index of the victim (each executed source line of aiuti/filelock.py and each flock/sleep operation, 60-180 points per scenario) x contender sets {none, blocking, timed, two blocking} started before/after the victim x schedules with <= 0-1 preemptions; plus kill-free 2..3 process worlds. Real kernel flock across real processes. Oracle: sections of live processes never overlap, no live process parked with nobody able to move, blocking survivors acquire, a fresh process acquires non-blockingly afterwards.',
          'Linux flock on a local filesystem; children single-threaded; virtual time for timeouts/polls; kill granularity = source line / shim operation.', '3/C13'),
  'C14': ('vt', 'bounded-exhaustive enumeration of call signatures and cache-operation sequences on the real decorator under a virtual-time event loop',
-         'Every call signature (<= 2, thorough 3 positionals over a 9-value domain incl. equal-across-type and (name,value) tuples; keyword dicts over <= 3 names in every insertion order) called on one wrapped function forward / reverse / shuffled / concurrently (covers all ordered pairs) for default, dict and logging-mapping caches; every sequence of <= 4 (thorough 5) ops over {call, evict, clear} x 4 colliding signatures, and every call sequence on lru.LRU(1..3): invoked iff absent from the caller mapping, values tagged with the arguments that produced them.',
+         'Every call signature (<= 2, thorough 3 positionals over a 9-value domain incl. equal-across-type and (name,value) tuples; keyword dicts over <= 3 names in every insertion order) called on one wrapped function forward / reverse / shuffled / concurrently (covers all ordered pairs) for default, dict and logging-mapping caches; every sequence of <= 4 (thorough 5) ops over {call, evict, clear} x 4 colliding signatures, incl. entries that expire after k reads of the mapping (mid-call eviction), and every call sequence on lru.LRU(1..3): invoked iff absent from the caller mapping, values tagged with the arguments that produced them, never an exception from the cache.',
          'single loop (cross-thread behaviour is C01); reference key relation is Python ==/hash.', '3/C14'),
  'C15': ('vt', 'bounded-exhaustive enumeration of probe programs per decorator option, differential between the options-decorator form and the direct forms, under a virtual-time event loop',
          'For every option of the three decorators (singly and jointly) all probe programs of <= 3 calls over a gap grid are run on @deco(opt=v), deco(func, opt=v) and the class; full virtual-time logs must be identical and must differ from the default configuration (sensitivity check, else the check fails as vacuous); a decorated batcher is driven from 1..3 successive loops (closed / kept open).',
